@@ -17,6 +17,7 @@ Spaces (block["space"]):
 """
 from __future__ import annotations
 
+import copy
 import itertools
 import json
 from types import SimpleNamespace
@@ -717,6 +718,10 @@ def blocks(tier):
     out = []
     for space in ("flat", "wrap", "tags", "nested"):
         out += [{"space": space, "tier": tier, "shard": [i, nb[space]]} for i in range(nb[space])]
+    # the same structures once more, each shard walked from its last structure to its first: a validator that remembers
+    # something from one call to the next (a cache of accepted or of rejected inputs) meets both orders of every pair
+    for space in ("flat", "wrap", "nested"):
+        out += [{"space": space, "tier": tier, "shard": [i, nb[space]], "order": "reversed"} for i in range(nb[space])]
     out.append({"space": "precision", "tier": tier, "shard": [0, 1]})
     out.append({"space": "constant", "tier": tier, "shard": [0, 1]})
     out += [{"space": "optimized", "tier": tier, "shard": [i, 4]} for i in range(4)]
@@ -862,7 +867,33 @@ def run_constant_case(case):
     return out
 
 
+class _Deferred:
+    """Stands in for the recorder while a shard is enumerated: keeps the structures, runs nothing."""
+
+    def __init__(self):
+        self.pending = []
+
+    def count(self, name, n=1):
+        pass
+
+
 def run_block(block, rec):
+    if block.get("order") == "reversed":
+        global eval_struct
+        real, later = eval_struct, _Deferred()
+        eval_struct = lambda c, how, r: r.pending.append((copy.deepcopy(c), how))  # noqa: E731
+        try:
+            _walk(dict(block, order=None), later)
+        finally:
+            eval_struct = real
+        for c, how in reversed(later.pending):
+            eval_struct(c, how, rec)
+        rec.count("structures_walked_in_reverse", len(later.pending))
+        return
+    _walk(block, rec)
+
+
+def _walk(block, rec):
     tier = block["tier"]
     i, n = block["shard"]
     sp = block["space"]
